@@ -41,6 +41,14 @@ def configs(tier, seed):
             cfgs.append(dict(backend=b, backoff='r10-20', n=4, messages=1, d=0, dd=3, menu=MENU))
             cfgs.append(dict(backend=b, backoff='r0x2', n=1, messages=1, d=2, dd=4, menu=MENU))
         cfgs.append(dict(backend=b, backoff='r0x2', n=2, messages=1, d=2 if q else 3, dd=2, menu=MENU, relay_pool=1, store_pool=None))
+        if b in ('dict', 'disk'):
+            # bounded store pool (redis/cloud park wait() in a slot of it for ever, a pool of one would accept nothing)
+            cfgs.append(dict(backend=b, backoff='r0x2', n=2, messages=2, d=1 if q else 2, dd=2, menu=MENU, relay_pool=1, store_pool=1,
+                             slow_ops=['get']))
+            cfgs.append(dict(backend=b, backoff='r0x2', n=2, messages=2, d=1 if q else 2, dd=2, menu=MENU, store_pool=2,
+                             slow_ops=['get', 'set_recipients_delivered']))
+        else:
+            cfgs.append(dict(backend=b, backoff='r0x2', n=2, messages=2, d=1, dd=2, menu=MENU, relay_pool=1, store_pool=3))
         # start-up load of a stored message (+ whatever the backend announces by itself)
         cfgs.append(dict(backend=b, backoff='r10', n=2, messages=0, prestored=1, d=2 if q else 3, dd=2, menu=MENU))
         if not q:
